@@ -30,8 +30,10 @@ func (m *verifMarshaler) MarshalText() ([]byte, error) {
 	return m.out, nil
 }
 
-// Three marshaler outputs that separate the behaviours: compact valid JSON, valid JSON with
-// insignificant space, and invalid text. The stubs below state what json.Compact and
+// Four marshaler outputs that separate the behaviours: compact valid JSON, valid JSON with
+// insignificant space, invalid text, and a compact string literal with an illegal escape
+// ("\x41": json.Compact / encoding/json reject it, the native validator behind alg.Valid does
+// not look inside string literals and accepts it). The stubs below state what json.Compact and
 // alg.Valid do on exactly these inputs, so native replays (real Compact/Valid) agree.
 func verifMarshalerOutput(class int) []byte {
 	switch class {
@@ -39,6 +41,8 @@ func verifMarshalerOutput(class int) []byte {
 		return []byte("1")
 	case 1:
 		return []byte(" 1")
+	case 3:
+		return []byte(`"\x41"`)
 	}
 	return []byte("x")
 }
@@ -49,10 +53,10 @@ func verifMarshalerOutput(class int) []byte {
 //   NoValidateJSONMarshaler -> only disables the validity check of non-compacted output
 //   neither                 -> output validated: invalid output is an error, valid output copied verbatim
 func VerifC18EncodeJsonMarshaler() {
-	class := v.Int("class", 0, 2)
+	class := v.Int("class", 0, 3)
 	v.Stub("github.com/bytedance/sonic/internal/encoder/prim.Compact", func(p *[]byte, b []byte) error {
-		if class == 2 {
-			return errVerifMarshal // json.Compact rejects "x"
+		if class >= 2 {
+			return errVerifMarshal // json.Compact rejects "x" and "\x41"
 		}
 		*p = append(*p, '1') // json.Compact of "1" and " 1"
 		return nil
@@ -74,8 +78,8 @@ func VerifC18EncodeJsonMarshaler() {
 		v.Assert(string(buf) == "p", "output produced although the marshaler failed")
 		v.Cover("marshaler-error")
 	case compact:
-		if class == 2 {
-			v.Assert(err != nil, "CompactMarshaler: invalid marshaler output accepted")
+		if class >= 2 {
+			v.Assert(err != nil, "CompactMarshaler: marshaler output that json.Compact rejects was accepted")
 		} else {
 			v.Assert(err == nil && string(buf) == "p1", "CompactMarshaler set but the marshaler output was not compacted")
 		}
@@ -86,6 +90,8 @@ func VerifC18EncodeJsonMarshaler() {
 	default:
 		if class == 2 {
 			v.Assert(err != nil, "invalid output from a user Marshaler accepted although validation is on")
+		} else if class == 3 {
+			v.Assert(err != nil, "marshaler output with an illegal escape inside a string literal is emitted although validation is on")
 		} else {
 			v.Assert(err == nil && string(buf) == "p"+raw, "valid marshaler output not copied verbatim")
 		}
